@@ -18,6 +18,10 @@ the machine-code column = the bytes appended), bound to the code POINTWISE:
                        broadcast, all subsets of lock/xacquire/xrelease/rep/repne, short/long/both, subsets of rex/vex3/vex/evex/mod_mr/mod_rm):
                        whatever the assembler ACCEPTS is judged (formatter and logger leg); the DB row's {er}/{sae} capability travels with the request;
                        AArch64: wsp/sp/wzr/xzr in every general-purpose register position (operand, memory base, index) of every row;
+                       leg R: requests the assembler REFUSES (the sweep's own rejected requests plus controlled ones: rsp as index, {er} on a row
+                       without it, lock, one operand too many - with {k}{z} / options pending) on an Assembler with a recording ErrorHandler; the
+                       message "<error string>: <formatted instruction>" (EmitterUtils::log_instruction_failed) is cut at the error string and the
+                       instruction text is judged by the same Denote(request); messages without an instruction text are not recorded;
   TLC (FmtObs.tla)     decorations are read two ways: as GIVEN (all of them: {er}+{sae} together = {r?-sae}) or as EMITTED (EVEX P2: aaa = {k}, z,
                        b = broadcast / rounding, L'L = rounding mode on a register-only form of a row that allows {er}, else {sae}); the text must
                        denote one of the two readings completely;
@@ -360,7 +364,7 @@ def describe(o, role, idx, exp, got):
     gtxt = (str(signed(gv[1])) if gv and gv[1] is not None else got)
     ev = expected_number(o, role)
     etxt = str(ev) if ev is not None and exp == "<num>" else exp
-    leg = {"F": "Formatter::format_instruction", "L": "logger line", "O": "Formatter::format_operand"}.get(o.get("leg", "F"), o.get("leg"))
+    leg = {"F": "Formatter::format_instruction", "L": "logger line", "O": "Formatter::format_operand", "R": "ErrorHandler message of the refused request"}.get(o.get("leg", "F"), o.get("leg"))
     s = f"request [{request_text(o)}] flags=0x{o.get('fl', 0):x} via {leg}: asmjit printed \"{o.get('tx', '').strip()}\"; {role}: the denotation requires {etxt!r}, the text has {gtxt!r} (token {idx})"
     if role == "machine-code":
         s += f"; column={['..' if x == -1 else '??' if x < 0 else '%02X' % x for x in o.get('hx', [])]} bytes appended={bytes(o.get('b', [])).hex().upper()}"
